@@ -594,8 +594,8 @@ func checkListing(m *qmodel.Model, c *adminCase, raw []byte) (what, msg string) 
 
 type adminCounters struct {
 	cases, changed, accepted, rejected, lists, rebuilds, mustOK, either, mustReject, leaseVoid int64
-	distinct                                                                                  map[string]struct{}
-	reported                                                                                  map[string]bool
+	distinct                                                                                   map[string]struct{}
+	reported                                                                                   map[string]bool
 }
 
 func newAdminCounters() *adminCounters {
